@@ -162,11 +162,11 @@ func SplitTLSRecords(stream []byte) (recs []TLSRecord, rest []byte) {
 }
 
 // PeekHeader unmasks only the 14-byte header of a wire message (no authentication).
-func (c *RefCodec) PeekHeader(msg []byte) (sid uint32, seq uint64, closing uint8, ok bool) {
+func (c *RefCodec) PeekHeader(msg []byte) (sid uint32, seq uint64, closing uint8, extra uint8, ok bool) {
 	if len(msg) < 14+8 {
-		return 0, 0, 0, false
+		return 0, 0, 0, 0, false
 	}
 	hdr := make([]byte, 14)
 	salsa20.XORKeyStream(hdr, msg[:14], msg[len(msg)-8:], &c.key)
-	return binary.BigEndian.Uint32(hdr[0:4]), binary.BigEndian.Uint64(hdr[4:12]), hdr[12], true
+	return binary.BigEndian.Uint32(hdr[0:4]), binary.BigEndian.Uint64(hdr[4:12]), hdr[12], hdr[13], true
 }
